@@ -57,7 +57,11 @@ def imports_ambiguity(app_imports, defs, importer='app'):
     app_imports: set of (crate, name), name '*' for a glob: the imports that survive per file (explicit imports of names the file's
     types mention, and all globs), merged over the files of the importing crate;  defs: crate -> {rust name: generated name}.
     An explicit import (c, n) contributes an import line for crate c when c generates a type NAMED n (generated names), otherwise the
-    fallback takes the first crate in HashMap order that generates a type named n. Returns a class name or None."""
+    fallback takes the first crate in HashMap order that generates a type named n. Returns a class name or None.
+    A glob import (c, '*') brings in every type of c whatever else is imported (since the /repo fix of language/mod.rs:472 it creates
+    its own entry; before, it only extended an entry another import resolving to c had made, in iteration order: that was a third
+    class here, glob-import-next-to-an-import-resolving-to-the-same-crate).  A glob takes no part in rename resolution or in the
+    fallback, so it makes nothing ambiguous: such workspaces must give the same bytes in every run."""
     explicit = sorted(i for i in app_imports if i[1] != '*')
     targets = {}
     for (c, n) in explicit:
@@ -72,9 +76,6 @@ def imports_ambiguity(app_imports, defs, importer='app'):
             return 'one-name-imported-from-two-crates-that-rename-it-differently'
     if any(len(t) >= 2 for t in targets.values()):
         return 'import-falls-back-to-one-of-several-crates-generating-the-name'
-    for (c, m) in app_imports:
-        if m == '*' and any(c in t for t in targets.values()):
-            return 'glob-import-next-to-an-import-resolving-to-the-same-crate'
     return None
 
 
@@ -294,7 +295,8 @@ def run(chk):
             chk.sample({'files': nfiles, 'lang': lang, 'multi_file': multi, 'fresh_processes': len(results), 'cpu_sets': reps, 'distinct_outputs': 1})
     # ---- (c) multi-file mode with cross-crate imports: fresh processes (fresh hash seeds) and, via the hook, arrival orders.
     # Import sets are HashSets merged per crate; renames and import lines are resolved through them. The input classes in
-    # which the UNCHANGED code already picks by hash order are decided on the input (imports_ambiguity) and are recorded findings.
+    # which the UNCHANGED code already picks by hash order are decided on the input (imports_ambiguity: two classes; globs are
+    # in neither since the /repo fix of the wildcard branch of used_imports) and are recorded findings.
     nws = 30 if chk.tier == 'quick' else 200
     reps_c = 8 if chk.tier == 'quick' else 24
     wjobs, wmeta, wss = [], [], []
